@@ -471,11 +471,17 @@ def run(R):
     for k in range(120 if quick else 3000):
         size, res, target, ms = gen_case(rng)
         dt, nc, enc_cli, type_cli = rng.choice(combos)
+        if k < 6:
+            # stratified: everything inherited from the file, nothing on the command line, no "type" in the file:
+            # the default type must follow the encoding found in the file
+            dt, nc, enc_cli, type_cli = ["uint32", "uint64", "uint32"][k % 3], 1, None, None
         info0 = {"data_type": dt, "num_channels": nc,
                  "scales": [{"size": size, "resolution": res, "voxel_offset": [0, 0, 0]}]}
         it = rng.choice([None, "image", "segmentation"])
         ie = rng.choice([None, "raw", "compressed_segmentation"]) if dt in ("uint32", "uint64") else rng.choice([None, "raw"])
         hb = rng.random() < 0.3
+        if k < 6:
+            it, ie, hb = None, ["compressed_segmentation", "compressed_segmentation", "raw"][k % 3], k >= 3
         if it:
             info0["type"] = it
         if ie:
@@ -528,6 +534,13 @@ def run(R):
         if blk != want_blk:
             R.disagree("set_info_params block size", case, blk, want_blk)
         # oracle: reconciliation rules of the statement + every scale accepted by the encoders
+        if it is None and type_cli is None:
+            want_ty = "segmentation" if written["scales"][0].get("encoding") == "compressed_segmentation" else "image"
+            R.count("main:default-type:" + want_ty)
+            if written.get("type") != want_ty:
+                R.violation("the default dataset type does not follow the encoding of the scales (a "
+                            "compressed_segmentation pyramid must be a segmentation)", case,
+                            {"type": written.get("type"), "encoding": written["scales"][0].get("encoding")})
         if m_enc == "compressed_segmentation" and (written["data_type"] not in ("uint32", "uint64")
                                                    and dt in ("uint8", "uint16", "uint32", "uint64")):
             R.violation("compressed_segmentation kept a data type it does not support", case, written["data_type"])
